@@ -300,7 +300,7 @@ namespace Givaro {
             if (degA >= degB) {
                 return mul(F, S1, A);
             } else {
-                return mul(F, T1, B);
+                return mul(F, T1, A);
             }
         } else {
             return mul(F, A, B);
